@@ -136,6 +136,12 @@ def run(run: core.Run) -> int:
     prep = core.lean_prepare(MODULES)
     aud = core.audit(THEOREMS, MODULES) if prep["proofs_ok"] else {"obligations": len(THEOREMS), "discharged": 0, "ok": False, "theorems": {}}
     jobs = core.jobs_for(run.tier)
+    # the oracle and the generators decide "which parameter is a jump target" by the PINNED table (harness/spec_tables.py,
+    # generated from lean/ESV/Beh/Spec.lean), not by /repo's OPS_WITH_JUMP_TO_MEM_OFFSET
+    from .. import spec_tables
+    sync = spec_tables.in_sync()
+    if sync:
+        run.broken_tie("pinned Python specification tables are out of date", {"detail": sync})
     gstats: dict = {}
     wf_cases: list[dict] = list(FIXED)
     corpus = os.path.join(core.ROOT, "corpus", "c07.jsonl")
